@@ -79,8 +79,13 @@ type Master struct {
 	workerSeq   int
 	diskVersion int // version found in the generated config-version.conf (handler mode)
 	loaded      int // version the current workers run
-	diskGen     int // identity of the file set on disk (bumped by every write)
+	diskGen     int // identity of the file set on disk (bumped by every operation that changes the disk)
 	loadedGen   int // identity of the file set the current workers were started with
+
+	// handler mode: the configuration files really are on disk (under disk.root)
+	disk       *faultFS
+	verPath    string // NGINX path of config-version.conf, as generated
+	forcedSame bool   // HUP without a readable version file on disk: the master kept its old workers
 }
 
 func newMaster(root string, pid int) (*Master, error) {
@@ -112,6 +117,9 @@ func (m *Master) close() {
 	_ = m.srv.Close()
 	_ = os.Remove(m.sock)
 	_ = os.RemoveAll(filepath.Join(m.root, "proc", strconv.Itoa(m.pid)))
+	if m.disk != nil {
+		_ = os.RemoveAll(m.disk.root)
+	}
 }
 
 // writeChildren renders the worker pid list as /proc/<pid>/task/<pid>/children does.
@@ -128,6 +136,7 @@ func (m *Master) install(sc *Script) {
 	m.hup, m.wrongPid, m.killCalls = false, false, 0
 	m.served = nil
 	m.answered = nil
+	m.forcedSame = false
 	if _, err := os.Stat(m.childPath); err != nil {
 		m.writeChildren()
 	}
@@ -192,6 +201,15 @@ func (m *Master) kill(pid int) error {
 		return nil
 	}
 	m.hup = true
+	if m.disk != nil {
+		// the master reads the configuration that is ACTUALLY on disk; without a readable version
+		// file (included by nginx.conf) it rejects the configuration and keeps its old workers
+		m.diskVersion = m.disk.diskVersion(m.verPath)
+		if m.diskVersion < 0 {
+			m.forcedSame = true
+			return nil
+		}
+	}
 	switch m.sc.Child {
 	case "changed":
 		m.respawn()
